@@ -168,7 +168,7 @@ def catalogue(tier):
     for k in range(1, 6 if tier == "quick" else 11):
         C.append(Cfg("spc", k))
     # Reed-Muller
-    for m in range(1, 4 if tier == "quick" else 6):
+    for m in range(1, 5 if tier == "quick" else 6):  # quick includes m = 4 so that order-3 monomials (RM(3,4)) are exercised
         for r in range(0, m):
             C.append(Cfg("rm", r, m))
     # cyclic: every divisor of X^n+1
